@@ -135,6 +135,11 @@ func (s *nullChunkSection) clone(dst *os.File, offset, length, blocksize uint64)
 	dstAlignStart := (offset/blocksize + 1) * blocksize
 	dstAlignEnd := (offset + length) / blocksize * blocksize
 
+	// Nothing to clone if the range doesn't hold a whole block, just fill it
+	if dstAlignEnd <= dstAlignStart {
+		return s.copy(dst, offset, length)
+	}
+
 	// fill the area before the first aligned block
 	var copied, cloned uint64
 	c1, _, err := s.copy(dst, offset, dstAlignStart-offset)
